@@ -300,13 +300,17 @@ S2(i1, i2) == <<Val(<<i1>>), Val(<<i2>>)>>
 SmallKeys == {I1, D1, SA, EN, I2}
 Keys7 == {I1, D1, SA, TA, EN, FN, BT}     \* one or two representatives of every class of the alphabet
 
-(* "keys": the SameKey matrix through every map function; single-entry maps over the whole
-   alphabet, every key as parameter *)
-(* "merge": pairs of single-entry maps over the whole alphabet, all duplicate policies *)
-(* "mapvals": maps of up to three entries with nested values; small key set, all six values *)
-(* "arrays": arrays of up to three members, all array functions, positions -1..4 *)
-(* "cons": map and array constructors (duplicate keys: XQDY0137) *)
-(* "deq": fn:deep-equal on pairs of values of a universe *)
+(* PROFILES (constant Profile) = seeds + enabled actions + parameter sets:
+   "keys" / "keys13" / "keys7"  the SameKey matrix through put/remove/get/contains/size/keys/find/lookup:
+              single-entry maps over the 18 / 13 / 7 key alphabet, every key as parameter
+   "merge" / "merge13"  pairs of single-entry maps over the alphabet, all duplicate policies, deep-equal
+   "mapvals"  maps of up to three entries with nested values; small key set, all six values, all map functions
+   "arrays" / "arrays3" / "arrays2"  arrays of up to three members, all array functions, positions -1..4
+   "cons"     map and array constructors (duplicate keys: XQDY0137)
+   "deq"      fn:deep-equal on all pairs of a universe of values
+   "mixed" / "mixed1"  a map and an array together (values extracted from one another, nested containers)
+   "selftest" the in-place variant (InPlace = TRUE) that TLC must reject
+   Lite = TRUE shrinks the parameter sets for histories of length 2 and 3. *)
 MapSeedsVals ==
   {M0} \cup {M1(k, v) : k \in {I1, SA, EN}, v \in Vals6}
   \cup {M2(I1, V1, SA, VE), M2(I1, V12, EN, V2), M2(SA, VM, I1, VA), M2(D1, V2, TA, V12),
